@@ -2333,7 +2333,8 @@ Qed.
 Lemma reachable_bin_sizes b : In b reachable_bins -> bin_size b = 8 \/ bin_size b mod 16 = 0.
 Proof.
   intros H. pose proof sweep_bin_table_align as S. rewrite forallb_forall in S. specialize (S b H).
-  unfold chk_bin_table_align in S. cbv zeta in S. apply orb_prop in S as [S|S]; apply N.eqb_eq in S; tauto.
+  clear H. unfold chk_bin_table_align in S. cbv zeta in S.
+  apply orb_prop in S as [S|S]; apply N.eqb_eq in S; [left|right]; exact S.
 Qed.
 
 Lemma min_alignment size page_start bs i :
